@@ -39,6 +39,7 @@ Producer: harness/viz_common.py.
  params scenarios
   sig NAME:KIND:d|n …                KIND ∈ po pk vp ko vk
   check KEY…
+  checks KEY…                        the check told that the caller passes `simulator=` anyway (extra_keywords=("simulator",))
   split KEY:slider | KEY:val | KEY:dict[+k…] …
   creator (same tokens)
   inputs NAME:SPEC …                 ModelCreator rendered on the full parameter dict; SPEC ∈ slider/i|f/VALUE/LABEL,
@@ -53,8 +54,11 @@ Producer: harness/viz_common.py.
                                      PlotMatplotlib(model, measure): `ok ylabel=M|- legend=y|n | LABEL|-,COLOR|-,v+v+… | …` or `err Key M`
   backend NAME                       make_plot_component("m", backend=NAME): ok | err NotImplemented | err Value
 
- ctrl scenarios (the controls of SolaraViz; the model class takes `**kw`, is `running` while steps < kw["stop"])
-  scenario ctrl model|sim            reset; ModelController / SimulatorController (ABMSimulator)
+ ctrl scenarios (the controls of SolaraViz; the model class is `running` while steps < its `stop` argument — also at
+ step 0: created with stop=0 it stops in its constructor)
+  scenario ctrl model|sim [P:KIND:d|n …]
+                                     reset; ModelController / SimulatorController (ABMSimulator); the parameters of the model
+                                     class' __init__ after `self` (absent: `**kw`, for sim `simulator=None, **kw`)
   viz R T STOP0 NAME:SPEC …          SolaraViz(Model(stop=STOP0), model_params={NAME: SPEC …}, render_interval=R, use_threads=T)
                                      SPEC as for `inputs`; STOP0 `-`: Model()
   step | play | reset                a click on Step / on ▶ or ❚❚ / on Reset (`disabled` if the button is)
@@ -109,6 +113,9 @@ structure St where
   mparams : Option (List (String × Option Val)) := none
   widgets : List Widget := []
   ctrlMode : Bool := false
+  ctrlSig : List Param := []
+  ctrlSim : Bool := false
+  ctrlSorted : Bool := false
   plotMode : Bool := false
   table : Table := []
   ctrl : Option Ctrl := none
@@ -511,6 +518,10 @@ def stepLine0 (st : St) (ws : List String) : St × String :=
     match st.params, st.sig with
     | true, some sig => (st, fmtCheck (checkModelParams sig keys))
     | _, _ => (st, "bad-op")
+  | "checks" :: keys =>
+    match st.params, st.sig with
+    | true, some sig => (st, fmtCheck (checkModelParamsExtra sig ["simulator"] keys))
+    | _, _ => (st, "bad-op")
   | "split" :: ps =>
     if !st.params then (st, "bad-op") else
     match ps.mapM parsePyVal with
@@ -550,15 +561,18 @@ def stopBeh : Behaviour := fun kw k =>
     | none => true
   | _ => true
 
-/-- `def __init__(self, **kw)` -/
-def ctrlSig : List Param := [⟨"self", .posOrKw, false⟩, ⟨"kw", .varKw, false⟩]
+/-- `def __init__(self, **kw)` / `def __init__(self, simulator=None, **kw)`: the classes of a scenario that names no signature -/
+def defaultCtrlSig (sim : Bool) : List Param :=
+  (if sim then [⟨"simulator", .posOrKw, true⟩] else []) ++ [⟨"kw", .varKw, false⟩]
 
 def fmtBool (b : Bool) : String := if b then "1" else "0"
 
-def fmtCtrl (c : Ctrl) : String :=
+/-- `sorted`: the scenario names a signature — parameters bound by name do not show the order of the call, the keyword
+    arguments are reported by name -/
+def fmtCtrl (c : Ctrl) (sorted : Bool := false) : String :=
   s!"ok gen={c.gen} steps={c.steps} mrunning={fmtBool c.mrunning} running={fmtBool c.running} playing={fmtBool c.playing}" ++
   s!" play={if c.running then "en" else "dis"} stepb={if c.playing || !c.running then "dis" else "en"}" ++
-  s!" render={c.render} updates={c.updates} kwargs={fmtParams c.kwargs}"
+  s!" render={c.render} updates={c.updates} kwargs={fmtParams (if sorted then c.kwargs.mergeSort (fun a b => strLe a.1 b.1) else c.kwargs)} sim={fmtBool c.sim}"
 
 def parseSleep (s : String) : Option Ev :=
   if s = "-" then some .idle
@@ -583,8 +597,9 @@ def ctrlOp (st : St) (op? : Option CtrlOp) (refused : String) : St × String :=
   match st.ctrl, op? with
   | some c, some op =>
     match c.apply stopBeh op with
-    | some c' => ({ st with ctrl := some c' }, fmtCtrl c')
+    | some c' => ({ st with ctrl := some c' }, fmtCtrl c' st.ctrlSorted)
     | none => (st, refused)
+  | none, some _ => (st, "err notrendered")     -- `SolaraViz` raised (or was not called): there are no controls
   | _, _ => (st, "bad-op")
 
 def ctrlLine (st : St) (ws : List String) : St × String :=
@@ -594,10 +609,10 @@ def ctrlLine (st : St) (ws : List String) : St × String :=
           (if stop0 = "-" then some [] else stop0.toNat?.map fun _ => [("stop", some stop0)]), ps.mapM parseParamVal with
     | some r, some t, some kw0, some ps =>
       if !(ps.map (·.1)).Nodup || st.ctrl.isSome then (st, "bad-op") else
-      match Ctrl.init ctrlSig ps kw0 r t with
+      match Ctrl.init stopBeh (⟨"self", .posOrKw, false⟩ :: st.ctrlSig) ps kw0 r t st.ctrlSim with
       | .error (.unsupported ty) => (st, s!"err unsupported {ty}")
       | .error (.check e) => (st, fmtCheck (.error e))
-      | .ok c => ({ st with ctrl := some c }, fmtCtrl c)
+      | .ok c => ({ st with ctrl := some c }, fmtCtrl c st.ctrlSorted)
     | _, _, _, _ => (st, "bad-op")
   | ["step"] => ctrlOp st (some .step) "disabled"
   | ["play"] => ctrlOp st (some .play) "disabled"
@@ -663,8 +678,12 @@ def plotLine (st : St) (ws : List String) : St × String :=
 def stepLine (st : St) (ws : List String) : St × String :=
   match ws with
   | ["scenario", "plot"] => ({ plotMode := true }, "ok")
-  | ["scenario", "ctrl", kind] =>
-    if kind = "model" || kind = "sim" then ({ ctrlMode := true }, "ok") else (st, "bad-op")
+  | "scenario" :: "ctrl" :: kind :: ps =>
+    if kind = "model" || kind = "sim" then
+      match ps.mapM parseParam with
+      | some sig => ({ ctrlMode := true, ctrlSim := kind = "sim", ctrlSorted := !ps.isEmpty, ctrlSig := if ps.isEmpty then defaultCtrlSig (kind = "sim") else sig }, "ok")
+      | none => (st, "bad-op")
+    else (st, "bad-op")
   | "scenario" :: _ => stepLine0 st ws
   | _ => if st.ctrlMode then ctrlLine st ws else if st.plotMode then plotLine st ws else stepLine0 st ws
 
